@@ -17,7 +17,7 @@ func init() {
 		Explanation: "DECIDED (typestate and path rules): sniff-and-replay (in DecoderFor the source reader is used only as the source of an io.TeeReader into the one local buffer placed after a reader over the buffer's current contents, or as the element following the buffer in the MultiReader given to the selected factory; never handed to a factory directly; the buffer is never reset) so every byte consumed while sniffing is replayed exactly once; the decoder is returned only on the err == nil edge of the trial decode and built by the same factory that succeeded; fall-through returns nil; the factory list is the fixed literal {gob, JSON, CSV}; decoder(files) appends exactly one decoder and closer per file or returns an error, and a nil from DecoderFor takes the error path; decode loops of encode/report/plot use a fresh zero Result per iteration (gob omits zero fields, the CSV decoder leaves Headers untouched, so a reused struct carries fields over), consume it exactly once on the err == nil edge, end on io.EOF with nil and return any other error; the -to table maps csv/gob/json to their encoders and rejects anything else; gob closures encode/decode their argument directly. " +
 			"NOT DECIDED: that a trial decoder rejects foreign input is library behaviour.",
 		Assumptions: []string{"io.TeeReader/io.MultiReader/bytes.Buffer semantics", "gob/CSV/JSON decoders fail on input in another format"},
-		MinObs:      9,
+		MinObs:      7,
 		Run:         runC08,
 	})
 	register(&propSpec{
@@ -26,7 +26,7 @@ func init() {
 		Explanation: "DECIDED (path rules): one whole record per Encode call (CSV: every nil-returning path passes one csv.Writer.Write then Flush and returns the writer's Error; JSON: the only write to the underlying writer is one DumpTo after the record and its '\\n' were appended in memory, nothing is dumped on the error path and the sticky error is never cleared; gob: one Encoder.Encode of the argument); the JSON decoder unmarshals only a line obtained from a copying, newline-terminated read (ReadBytes/ReadString('\\n')) on the err == nil edge; gob decoder decodes straight into the caller's Result (no retained scratch value); callers (encode, report, plot, round-robin) use a decoded Result only on the err == nil edge of the Decode that filled it, with a fresh Result per iteration; the attack command writes each result as it arrives (C02 cli-pump). " +
 			"NOT DECIDED: behaviour at each byte offset inside gob length prefixes, CSV quoting and base64 runs is encoding/* behaviour.",
 		Assumptions: []string{"encoding/gob frames messages atomically; bufio.Reader.ReadBytes returns an error for an unterminated final line"},
-		MinObs:      9,
+		MinObs:      8,
 		Run:         runC09,
 	})
 	register(&propSpec{
@@ -35,7 +35,7 @@ func init() {
 		Explanation: "DECIDED (path rules): round-robin (the closure makes exactly len(dec) attempts per call by ranging over the decoder slice, selects index seq % len(dec), increments seq exactly once per attempt, returns nil immediately on the first successful Decode so no second Decode into the same Result is reachable, returns an error only after the loop i.e. when every input failed in this call, never modifies the decoder slice; the single-decoder shortcut returns that decoder); decoder(files) builds one auto-detected decoder per file and hands exactly that slice to the round-robin; the command loops end only on io.EOF and consume each decoded record exactly once (C08 loop rules); with C10's commutative accumulators the metrics of a union do not depend on the split. " +
 			"NOT DECIDED: equality of whole reports for concrete splits; a failed attempt that partly filled the Result before the next decoder's gob decode is a residual risk.",
 		Assumptions: []string{"a decoder that returned io.EOF keeps returning io.EOF"},
-		MinObs:      8,
+		MinObs:      17,
 		Run:         runC13,
 	})
 }
@@ -1045,12 +1045,12 @@ func c13RoundRobin(c *Ctx) {
 		}
 	}
 	if ok {
-		ifErr := errNotNilIf(d, d)
+		onErr, onOK, ifErr := errEdges(d)
 		if ifErr == nil {
 			ok, why = false, "the Decode error is not tested"
 		} else {
 			// success: returns nil at once
-			set := exploreBlock(ifErr.Block().Succs[1], nil)
+			set := exploreBlock(onOK, nil)
 			if set[ssa.Instruction(d)] {
 				ok, why = false, "after a successful Decode the loop decodes again into the same Result"
 			}
@@ -1060,7 +1060,7 @@ func c13RoundRobin(c *Ctx) {
 				}
 			}
 			// failure: continue to the next attempt (no return inside the loop)
-			setE := exploreBlock(ifErr.Block().Succs[0], func(i ssa.Instruction) bool { return i.Block() == header })
+			setE := exploreBlock(onErr, func(i ssa.Instruction) bool { return i.Block() == header })
 			if len(returnsIn(setE)) > 0 {
 				ok, why = false, "the first failing input ends the call although others may still have records"
 			}
